@@ -10,7 +10,7 @@ theorem maxTokens_eq : maxTokens = 5 := rfl
 
 /-- what one iteration of the main loop guarantees -/
 def BodyOK (f : FS) : Step → Prop
-  | .cont f' => FInv f' ∧ f'.s.input = f.s.input ∧ (XInv f → XInv f') ∧ f.more = true ∧
+  | .cont f' => FInv f' ∧ f'.s.input = f.s.input ∧ (XInv f → XInv f') ∧ f.more = true ∧ f.s.pos ≤ f'.s.pos ∧
       (f'.more = false ∨ bigM f' < bigM f)
   | .brk f' => FInv f' ∧ f'.s.input = f.s.input ∧ (XInv f → XInv f')
   | .ret n f' => FInv f' ∧ f'.s.input = f.s.input ∧ (XInv f → XInv f') ∧ n ≤ 7
@@ -23,13 +23,13 @@ theorem bigM_reset (f : FS) : bigM { f with left := f.pos } + 2 * (f.pos - f.lef
 theorem xinv_left (f : FS) (l : Nat) (h : XInv f) : XInv { f with left := l } := h
 
 /-- a finished stage seen from the start of the iteration -/
-theorem body_of_step (f g : FS) (st : Step) (hin : g.s.input = f.s.input) (hx : XInv f → XInv g)
+theorem body_of_step (f g : FS) (st : Step) (hin : g.s.input = f.s.input) (hx : XInv f → XInv g) (hsp : f.s.pos ≤ g.s.pos)
     (hmore : f.more = true) (hm : g.more = false ∨ bigM g ≤ bigM f) (hp6 : g.pos ≤ 6)
     (hok : StepOK g.s.input st) (hrel : StepRel g st) : BodyOK f st := by
   cases st with
   | cont f' =>
     obtain ⟨hev, hlt⟩ := hrel
-    refine ⟨hok.1, by rw [hok.2]; exact hin, fun h => xinv_evol hev (hx h), hmore, ?_⟩
+    refine ⟨hok.1, by rw [hok.2]; exact hin, fun h => xinv_evol hev (hx h), hmore, by rw [hev.2.1]; exact hsp, ?_⟩
     rcases hm with hm | hm
     · left; rw [hev.2.2.2.2.1]; exact hm
     · right
@@ -69,6 +69,7 @@ theorem foldBody_ok (f : FS) (hf : FInv f) : ∃ st, foldBody f = .ok st ∧ Bod
   obtain ⟨f2, h2, hf2, hl2, hp2, hi2, hsp2, hx2, htri2, _⟩ := fetch_ok' 2 _ f1 hf1 (fetch_fuel_ok f1)
   simp only [h2]
   have hin2 : f2.s.input = f.s.input := by rw [hi2, hi1]
+  have hpos2 : f.s.pos ≤ f2.s.pos := by rw [← hev1.2.1]; exact hsp2
   have hxf2 : XInv f → XInv f2 := fun h => hx2 (hx1 h)
   have hb2 : f2.more = false ∨ bigM f2 ≤ bigM f := by
     rcases htri2 with ⟨he, _⟩ | hmf | hsc
@@ -79,7 +80,7 @@ theorem foldBody_ok (f : FS) (hf : FInv f) : ∃ st, foldBody f = .ok st ∧ Bod
       omega
   by_cases c2 : f2.pos - f2.left < 2
   · rw [if_pos c2]
-    refine ⟨_, rfl, ⟨hf2.1, Nat.le_refl _, hf2.2.2.1, hf2.2.2.2⟩, hin2, fun h => xinv_left f2 _ (hxf2 h), hmore, ?_⟩
+    refine ⟨_, rfl, ⟨hf2.1, Nat.le_refl _, hf2.2.2.1, hf2.2.2.2⟩, hin2, fun h => xinv_left f2 _ (hxf2 h), hmore, hpos2, ?_⟩
     rcases htri2 with ⟨he, hnc⟩ | hmf | hsc
     · exfalso
       apply hnc
@@ -100,7 +101,7 @@ theorem foldBody_ok (f : FS) (hf : FInv f) : ∃ st, foldBody f = .ok st ∧ Bod
   cases r with
   | done st =>
     simp only []
-    exact ⟨_, rfl, body_of_step f f2 st hin2 hxf2 hmore hb2 hf2.2.2.1 hrok hrrel⟩
+    exact ⟨_, rfl, body_of_step f f2 st hin2 hxf2 hpos2 hmore hb2 hf2.2.2.1 hrok hrrel⟩
   | next f3 =>
     obtain ⟨hf3, hi3, hp3, hl3, hm3, hsp3⟩ := hrok
     obtain ⟨hev3, hle3⟩ := hrrel
@@ -108,6 +109,10 @@ theorem foldBody_ok (f : FS) (hf : FInv f) : ∃ st, foldBody f = .ok st ∧ Bod
     obtain ⟨f4, h4, hf4, hl4, hp4, hi4, hsp4, hx4, htri4, hstay4⟩ := fetch_ok' 3 _ f3 hf3 (fetch_fuel_ok f3)
     simp only [h4]
     have hin4 : f4.s.input = f.s.input := by rw [hi4, hi3, hin2]
+    have hpos4 : f.s.pos ≤ f4.s.pos := by
+      have : f3.s.pos = f2.s.pos := hsp3
+      have : f3.s.pos ≤ f4.s.pos := hsp4
+      omega
     have hxf4 : XInv f → XInv f4 := fun h => hx4 (xinv_evol hev3 (hxf2 h))
     have hb3 : bigM f3 ≤ bigM f2 := bigM_le_of_Le f2 f3 hev3 hle3 hf3.2.2.1
     have hb4 : f4.more = false ∨ bigM f4 ≤ bigM f := by
@@ -123,7 +128,7 @@ theorem foldBody_ok (f : FS) (hf : FInv f) : ∃ st, foldBody f = .ok st ∧ Bod
           omega
     by_cases c3 : f4.pos - f4.left < 3
     · rw [if_pos c3]
-      refine ⟨_, rfl, ⟨hf4.1, Nat.le_refl _, hf4.2.2.1, hf4.2.2.2⟩, hin4, fun h => xinv_left f4 _ (hxf4 h), hmore, ?_⟩
+      refine ⟨_, rfl, ⟨hf4.1, Nat.le_refl _, hf4.2.2.1, hf4.2.2.2⟩, hin4, fun h => xinv_left f4 _ (hxf4 h), hmore, hpos4, ?_⟩
       rcases hb4 with hmf | hb4
       · left; exact hmf
       · rcases htri4 with ⟨he, _⟩ | hmf | hsc
@@ -144,7 +149,7 @@ theorem foldBody_ok (f : FS) (hf : FInv f) : ∃ st, foldBody f = .ok st ∧ Bod
             omega
     rw [if_neg c3]
     obtain ⟨st, hst, hstok, hstrel⟩ := foldThree_ok f4 hf4 (by omega)
-    exact ⟨st, hst, body_of_step f f4 st hin4 hxf4 hmore hb4 hf4.2.2.1 hstok hstrel⟩
+    exact ⟨st, hst, body_of_step f f4 st hin4 hxf4 hpos4 hmore hb4 hf4.2.2.1 hstok hstrel⟩
 
 end LibInj.Sqli
 
@@ -176,7 +181,7 @@ theorem foldLoop_ok (fuel : Nat) : ∀ (f : FS), FInv f → loopT f < fuel →
     cases st with
     | cont f' =>
       simp only []
-      obtain ⟨hf', hin', hx', hmore, hdec⟩ := hok
+      obtain ⟨hf', hin', hx', hmore, _, hdec⟩ := hok
       have hfu' : loopT f' < fuel := by
         unfold loopT at hfu ⊢
         rw [hmore] at hfu
